@@ -206,6 +206,7 @@ func runC19(c *Ctx) {
 	ruleAdopt(c, p, "C19.adopt")
 	ruleInferErrors(c, p, "C19.infer-errors")
 	ruleAutoAtomic(c, p, "C19.auto-atomic")
+	ruleAutoAdopts(c, p, "C19.auto-adopt")
 	ruleStringIdioms(c, p, "C19.idioms")
 	ruleInferTables(c, p, "C19")
 	rule := ""
@@ -967,5 +968,55 @@ func ruleStringIdioms(c *Ctx, p *core.Program, rule string) {
 		if !bad {
 			c.R.Ok(rule, "ColEnum.parse/names", cfg, p.Pos(pe.Pos()), "quotes and surrounding blanks are not stripped by one cutset")
 		}
+	}
+}
+
+// ruleAutoAdopts (C18.auto-adopt / C19.auto-adopt): the inference wrapper re-infers or forwards.
+func ruleAutoAdopts(c *Ctx, p *core.Program, rule string) {
+	c.R.Rule(rule, "ColAuto.Infer(t) succeeds only after the held column was created for t (a store to Data) or was itself given t (a call of Infer on the held column behind a type test for Inferable): the `already compatible` shortcut relies on Conflicts, which ignores parameters (DateTime64 precision, time zone, enum values), so keeping the held column untouched reports type t while decoding with the previous parameters")
+	cfg := p.Cfg.Name
+	inf := p.Method(core.PkgProto, "ColAuto", "Infer")
+	if !c.must(p, "(*proto.ColAuto).Infer", inf != nil) {
+		return
+	}
+	recv := inf.Params[0]
+	adopts := func(in ssa.Instruction) bool {
+		switch x := in.(type) {
+		case *ssa.Store:
+			if fa, ok := x.Addr.(*ssa.FieldAddr); ok && fa.X == ssa.Value(recv) && fieldNameOnly(fa.X.Type(), fa.Field) == "Data" {
+				return true
+			}
+		case ssa.CallInstruction:
+			cc := x.Common()
+			if cc.IsInvoke() && cc.Method.Name() == "Infer" {
+				// the receiver of the call derives from c.Data
+				return core.DependsOn(cc.Value, func(v ssa.Value) bool {
+					fa, ok := v.(*ssa.FieldAddr)
+					return ok && fa.X == ssa.Value(recv) && fieldNameOnly(fa.X.Type(), fa.Field) == "Data"
+				}, false)
+			}
+		}
+		return false
+	}
+	// a held column that is not Inferable has no parameters to adopt: the failed type test counts
+	notInferable := core.CondEdges(inf, false, func(cond ssa.Value) (bool, bool) {
+		ex, ok := cond.(*ssa.Extract)
+		if !ok || ex.Index != 1 {
+			return false, false
+		}
+		ta, ok := ex.Tuple.(*ssa.TypeAssert)
+		if !ok || !ta.CommaOk {
+			return false, false
+		}
+		return true, core.IsNamed(ta.AssertedType, core.PkgProto, "Inferable")
+	})
+	hits := core.ReachAvoiding(core.Entry(inf), func(x ssa.Instruction) bool {
+		ret, ok := x.(*ssa.Return)
+		return ok && x.Block().Comment != "recover" && defaultSuccess(inf, ret)
+	}, adopts, core.WithoutEdges(notInferable))
+	if len(hits) > 0 {
+		c.R.Bad(rule, "ColAuto.Infer", cfg, p.Pos(hits[0].At.Pos()), "ColAuto.Infer can succeed while the held column neither was created for the requested type nor was told about it: after DateTime64(3), a request for DateTime64(9) keeps the precision-3 column and reports type DateTime64(9)", p.TrailString(hits[0])...)
+	} else {
+		c.R.Ok(rule, "ColAuto.Infer", cfg, p.Pos(inf.Pos()), "every success path creates the column for t or forwards t to it")
 	}
 }
